@@ -17,6 +17,11 @@ def run(repo, tier) -> Result:
     )
     res.assumptions = ["timestamps present; buckets strictly increasing (C03)"]
     check_fill("C12", res, repo)
+    # "exactly one timeframe apart": the fill step works on the labels collapse_candles produced; they are on the grid only if the
+    # two bucket-edge helpers agree on it (round_down_timestamp / on_timeframe, second resolution)
+    from ..manager_rules import check_epoch
+
+    check_epoch("C12", res, repo)
     check_collapse("C12", res, repo, want=("R-FILLPATH",))
     res.rule("R-FILL", floor=10)
     # "the real buckets are identical to those produced without filling": every timeframe collapses the raw base candles, never another
